@@ -53,10 +53,10 @@ Inductive catres := CatBadJSON | CatTooMany | CatOk (c : catinfo).
 Inductive track := TCatalog | TNum (n : nat) | TBad.
 
 Inductive msg :=
-| MSetup (m : setupmsg) | MClientSetup (m : setupmsg)
-| MSubscribe (t : track) | MPublish (catalog : bool)
-| MOther            (* SERVER_SETUP, SUBSCRIBE_OK, REQUEST_ERROR, PUBLISH_OK, REQUEST_OK *)
-| MGarbage.         (* controlmessage.Read fails *)
+| QSetup (m : setupmsg) | QClientSetup (m : setupmsg)
+| QSubscribe (t : track) | QPublish (catalog : bool)
+| QOther            (* SERVER_SETUP, SUBSCRIBE_OK, REQUEST_ERROR, PUBLISH_OK, REQUEST_OK *)
+| QGarbage.         (* controlmessage.Read fails *)
 
 (* what runs concurrently on one session *)
 Inductive stream :=
@@ -117,7 +117,7 @@ Record sess := {
 }.
 
 (* ghost: what a goroutine may rely on *)
-Record abs := {
+Record ghost := {
   a_k : bool;                   (* under the lock it has seen setupReceived open *)
   a_ki : bool;                  (* under the lock it has seen state == idle *)
   a_tok : option sstate;        (* it is the goroutine that moved state from idle to this value and still owes the
@@ -125,7 +125,7 @@ Record abs := {
   a_kt : option nat;            (* it has seen this index below len(setupTracks) *)
   a_rdy : bool                  (* it has seen publishReady closed *)
 }.
-Definition abs0 : abs := {| a_k := false; a_ki := false; a_tok := None; a_kt := None; a_rdy := false |}.
+Definition abs0 : ghost := {| a_k := false; a_ki := false; a_tok := None; a_kt := None; a_rdy := false |}.
 
 Record thread := {
   t_ops : list op;
@@ -142,7 +142,7 @@ Record thread := {
   t_wrote : list Z;             (* messages written to its stream, most recent first *)
   t_snap : option (sstate * list Z * list Z); (* what apiItem read *)
   t_res : option err;           (* Some e: returned e *)
-  t_abs : abs
+  t_abs : ghost
 }.
 
 Inductive outcome := XOk (g : sess) (t : thread) | XBlocked | XPanic | XUnprotected.
@@ -209,7 +209,7 @@ Definition t_set_res (t : thread) (e : err) : thread :=
   {| t_ops := []; t_alt := None; t_on := t_on t; t_holds := false; t_fed := t_fed t; t_eof := t_eof t;
      t_name := t_name t; t_query := t_query t; t_cat := t_cat t; t_pm := t_pm t; t_wrote := t_wrote t;
      t_snap := t_snap t; t_res := Some e; t_abs := t_abs t |}.
-Definition t_set_abs (t : thread) (a : abs) : thread :=
+Definition t_set_abs (t : thread) (a : ghost) : thread :=
   {| t_ops := t_ops t; t_alt := t_alt t; t_on := t_on t; t_holds := t_holds t; t_fed := t_fed t; t_eof := t_eof t;
      t_name := t_name t; t_query := t_query t; t_cat := t_cat t; t_pm := t_pm t; t_wrote := t_wrote t;
      t_snap := t_snap t; t_res := t_res t; t_abs := a |}.
@@ -329,12 +329,12 @@ Definition exec (c : cfg) (g : sess) (i : nat) (t : thread) (ch : nat) : outcome
 
 (* ---- the discipline: what each statement requires and what it teaches (ghost) -------------------------------------- *)
 
-Definition tok_is (a : abs) (s : sstate) : bool :=
+Definition tok_is (a : ghost) (s : sstate) : bool :=
   match a_tok a with Some s' => st_eqb s' s | None => false end.
-Definition kt_is (a : abs) (n : nat) : bool :=
+Definition kt_is (a : ghost) (n : nat) : bool :=
   match a_kt a with Some m => m =? n | None => false end.
 
-Definition req (h : bool) (a : abs) (o : op) : bool :=
+Definition req (h : bool) (a : ghost) (o : op) : bool :=
   match o with
   | OLock => negb h
   | OUnlock => h
@@ -351,17 +351,17 @@ Definition req (h : bool) (a : abs) (o : op) : bool :=
   | OTrackLookup _ => a_rdy a
   end.
 
-Definition a_set (a : abs) (k ki : bool) : abs :=
+Definition a_set (a : ghost) (k ki : bool) : ghost :=
   {| a_k := k; a_ki := ki; a_tok := a_tok a; a_kt := a_kt a; a_rdy := a_rdy a |}.
-Definition a_set_tok (a : abs) (t : option sstate) : abs :=
+Definition a_set_tok (a : ghost) (t : option sstate) : ghost :=
   {| a_k := a_k a; a_ki := false; a_tok := t; a_kt := a_kt a; a_rdy := a_rdy a |}.
-Definition a_set_kt (a : abs) (n : nat) : abs :=
+Definition a_set_kt (a : ghost) (n : nat) : ghost :=
   {| a_k := a_k a; a_ki := a_ki a; a_tok := a_tok a; a_kt := Some n; a_rdy := a_rdy a |}.
-Definition a_set_rdy (a : abs) : abs :=
+Definition a_set_rdy (a : ghost) : ghost :=
   {| a_k := a_k a; a_ki := a_ki a; a_tok := a_tok a; a_kt := a_kt a; a_rdy := true |}.
 
 (* knowledge after the statement has been executed without returning *)
-Definition learn (h : bool) (a : abs) (o : op) : abs :=
+Definition learn (h : bool) (a : ghost) (o : op) : ghost :=
   match o with
   | OLock | OUnlock => a_set a false false
   | OSelectSetup => a_set a h (a_ki a)
@@ -380,7 +380,7 @@ Definition hnext (h : bool) (o : op) : bool :=
 Definition terminal (o : op) : bool := match o with ORet _ | OWaitEofOrCtx => true | _ => false end.
 
 (* a program is well-formed from (holds h, knowledge a) *)
-Fixpoint wf (h : bool) (a : abs) (ops : list op) : bool :=
+Fixpoint wf (h : bool) (a : ghost) (ops : list op) : bool :=
   match ops with
   | [] => negb h
   | o :: r => req h a o && (terminal o || wf (hnext h o) (learn h a o) r)
@@ -515,12 +515,12 @@ Definition publish_track (c : cfg) : list op :=
 
 Definition bidi_dispatch (c : cfg) (v : variant) (m : msg) : list op :=
   match m with
-  | MSubscribe TCatalog => subscribe_catalog c v
-  | MSubscribe (TNum n) => subscribe_track v n
-  | MSubscribe TBad => [ORet EBadTrackName]
-  | MPublish true => publish_catalog c v
-  | MPublish false => publish_track c
-  | MGarbage => [ORet EParse]
+  | QSubscribe TCatalog => subscribe_catalog c v
+  | QSubscribe (TNum n) => subscribe_track v n
+  | QSubscribe TBad => [ORet EBadTrackName]
+  | QPublish true => publish_catalog c v
+  | QPublish false => publish_track c
+  | QGarbage => [ORet EParse]
   | _ => [ORet EUnsupportedMsg]
   end.
 
@@ -531,15 +531,15 @@ Definition bidi_common (c : cfg) (v : variant) (m : msg) : list op :=
 (* runBidiStream, draft-16, the `default:` branch of the first select *)
 Definition bidi16_nosetup (v : variant) (m : msg) : list op :=
   ORead :: match m with
-           | MGarbage => [ORet EParse]
-           | MClientSetup sm => setup_section v sm ++ [OWrite wServerSetup; ODrain; ORet ENil]
+           | QGarbage => [ORet EParse]
+           | QClientSetup sm => setup_section v sm ++ [OWrite wServerSetup; ODrain; ORet ENil]
            | _ => [ORet EExpectedClientSetup]
            end.
 
 Definition prog (c : cfg) (v : variant) (s : stream) : list op :=
   match s with
-  | UniEmpty | UniBadSubgroup | UniMsg MGarbage => [ORead; ORet EParse]
-  | UniMsg (MSetup sm) =>
+  | UniEmpty | UniBadSubgroup | UniMsg QGarbage => [ORead; ORet EParse]
+  | UniMsg (QSetup sm) =>
       ORead :: match c_ver c with
                | V16 => [ORet EVersion]
                | _ => setup_section v sm ++ [ODrain; ORet ENil]
